@@ -317,7 +317,7 @@ def check(run):
     cases = []
     for _ in range(n):
         desc = sysgen.rand_desc(rng, max_species=3, max_cells=8)
-        if rng.random() < 0.3:
+        if rng.random() < 0.3 and not desc["space"].get("built_in"):
             sysgen.reassign_space_units(rng, desc)          # the space changes its units system between construction and use
         cases.append({"desc": desc, "ops": rand_ops(rng, desc)})
     items = build_items(cases)
